@@ -2,7 +2,7 @@
     Only statements; proofs are [exact <lemma>] (theories/TimelineProofs.v).
     [S r n] / [E r n] are start / end of segment [n] counted from availabilityStartTime:
     floor(n/N)*loopDuration + VoD start / end of segment (n mod N). *)
-From Verif Require Import GoSem Timeline TimelineProofs.
+From Verif Require Import GoSem Timeline TimelineProofs LiveSeg LiveSegProofs.
 From VerifGen Require Consts.
 
 (** Segment n+1 begins exactly where segment n ends, also across every loop wrap. *)
@@ -53,6 +53,28 @@ Theorem C01_ttml_shift : forall r loopMS q, wf r loopMS -> 0 <= q ->
   ttmlShiftMS (q * repDuration r) (ts r) = q * loopMS.
 Proof. exact ttml_shift_loops. Qed.
 Print Assumptions C01_ttml_shift.
+
+(** The rewrite of the VoD segment (genLiveSegment): every fragment carries the new sequence number,
+    its samples unchanged, its decode time moved by the one shift that puts the first fragment at
+    the requested time (so fragments stay contiguous), and a trun data offset that still addresses
+    the first payload byte - also when the tfdt box grows because the time needs 64 bits. *)
+Theorem C01_rewrite : forall newNr newTime f0 fs out,
+  0 <= newTime < two64 -> f_tfdt f0 <= newTime ->
+  Forall (fun f => 0 <= f_tfdt f /\ f_tfdt f + (newTime - f_tfdt f0) < two64 /\ f_tfdt f0 <= f_tfdt f) (f0 :: fs) ->
+  Forall offset_ok (f0 :: fs) ->
+  rewrite_seg newNr newTime (f0 :: fs) = Ok out ->
+  map f_seq out = map (fun _ => newNr) (f0 :: fs) /\
+  map f_samples out = map f_samples (f0 :: fs) /\
+  map f_tfdt out = map (fun f => f_tfdt f + (newTime - f_tfdt f0)) (f0 :: fs) /\
+  Forall offset_ok out.
+Proof. exact rewrite_seg_spec. Qed.
+Print Assumptions C01_rewrite.
+
+Theorem C01_rewrite_first : forall newNr newTime f0 fs out,
+  0 <= f_tfdt f0 <= newTime -> newTime < two64 ->
+  rewrite_seg newNr newTime (f0 :: fs) = Ok out -> exists g gs, out = g :: gs /\ f_tfdt g = newTime.
+Proof. exact rewrite_seg_first. Qed.
+Print Assumptions C01_rewrite_first.
 
 (** Constants of the Go source the model depends on (regenerated from /repo on every run). *)
 Theorem C01_consts : Consts.app_defaultStartNr = 0 /\ Consts.app_defaultAvailabilityStartTimeS = 0.
